@@ -10,6 +10,10 @@ package encapsulation
 //   hdrK(b.., d)     b.. is a well-formed K-byte prefix whose data bit equals d
 //   decK(b..)        the length announced by a K-byte prefix
 //
+// The package keeps no mutable package-level state: activations (two decoders, two requests) cannot influence each
+// other through it.
+//@ stateless package [C09]
+//
 //@ default model bv
 //@ spec func plen(v int) int = ite(v < 64, 1, ite(v < 8192, 2, 3))
 //@ spec func dec1(b0 byte) int = int(b0 & 0x3f)
